@@ -417,9 +417,11 @@ impl Client {
                 // handshake must have been received. Ignore that.
 
                 if frame.nonce_ack == state.local_nonce {
-                    if (frame.max_receive_alloc as usize) < self.config.endpoint_config.max_packet_size {
+                    if (frame.max_receive_alloc as usize) < self.config.endpoint_config.max_packet_size || frame.max_receive_rate == 0 {
                         // The server could never receive a packet of our maximum size (such a
-                        // packet would sit in the send queue forever), so treat this the same way
+                        // packet would sit in the send queue forever), or it advertises a receive
+                        // rate of zero (not a valid endpoint configuration, and the send rate
+                        // computation does not terminate sensibly for it). Treat this the same way
                         // the server treats the mirrored case: as a configuration mismatch.
                         self.events_out.push(Event::Error(ErrorType::Config));
                         self.state = State::Fin;
